@@ -18,7 +18,7 @@ def run(ctx):
     from mako.template import Template
     from mako.lookup import TemplateLookup
     disagreements = []
-    n = 600 if tier == "quick" else 20000
+    n = 600 if tier == "quick" else 100000
     req, got = [], []
     for _ in range(n):
         defs, body = core_gen.gen_program(rng)
